@@ -451,6 +451,15 @@ class Inliner:
                 if cal is not None and cal in self.new:
                     return cal, ("class", recv)
                 return None
+        # a local bound once to `C(...)`, C a new class: the method is C's (whatever else goes by that name)
+        if isinstance(recv, ast.Name):
+            ci = self._new_class_of(recv, fi)
+            if ci is not None:
+                cal = repo.find_method(ci, name)
+                if cal is not None and cal in self.new and not _is_property(cal.node) and not any(
+                        isinstance(d, ast.Name) and d.id in ("staticmethod", "classmethod") for d in cal.node.decorator_list):
+                    return cal, recv
+                return None
         # any receiver: unique new method of that name, and no reference function of that name
         if len(cands) == 1 and name not in self.known_names and cands[0].cls is not None:
             return cands[0], recv
@@ -501,12 +510,27 @@ class Inliner:
         if callee.qual in self._recursive:
             raise NotInlinable("recursive helper")
         fn = copy.deepcopy(callee.node)
+        kwarg_name = None
+        if fn.args.kwarg is not None and fn.args.vararg is None:
+            # `**fields`: the keywords no parameter takes, gathered in a new dict -- which is what the display written at the call
+            # site is (the call must spell its keywords out)
+            kwarg_name = fn.args.kwarg.arg
+            fn.args.kwarg = None
         prm = _params(fn)
         if prm is None:
             raise NotInlinable("*args/**kwargs")
         pos, kwo, defaults = prm
         if any(isinstance(a, ast.Starred) for a in call.args) or any(k.arg is None for k in call.keywords):
             raise NotInlinable("star arguments at the call site")
+        if kwarg_name is not None:
+            extra = [k for k in call.keywords if k.arg not in pos and k.arg not in kwo]
+            if extra and any(k2.arg in pos or k2.arg in kwo for k2 in call.keywords[call.keywords.index(extra[0]):]):
+                raise NotInlinable("keywords for **%s mixed with parameter keywords" % kwarg_name)   # keeps the evaluation order plain
+            call = copy.copy(call)
+            call.keywords = [k for k in call.keywords if k not in extra]
+            gathered = ast.Dict(keys=[ast.Constant(value=k.arg) for k in extra], values=[k.value for k in extra])
+            ast.copy_location(gathered, call)
+            ast.fix_missing_locations(gathered)
         lock = None
         is_cm = False
         static = False
@@ -556,6 +580,8 @@ class Inliner:
             if k.arg in binding or (k.arg not in params and k.arg not in kwo):
                 raise NotInlinable("keyword %s" % k.arg)
             binding[k.arg] = k.value
+        if kwarg_name is not None:
+            binding[kwarg_name] = gathered
         for p in params + kwo:
             if p not in binding:
                 if p not in defaults:
@@ -1096,11 +1122,16 @@ def _replace_node(root, old, new):
     return False
 
 
+_BUILTIN_TYPES = ("bool", "str", "int", "float", "bytes", "list", "dict", "tuple", "set", "frozenset", "complex", "bytearray")
+
+
 def _literal(v) -> bool:
     if isinstance(v, ast.Constant):
         return isinstance(v.value, (str, int, float, bytes, bool)) or v.value is None
     if isinstance(v, ast.Tuple):
         return all(_literal(e) for e in v.elts)
+    if isinstance(v, ast.Name):
+        return v.id in _BUILTIN_TYPES     # (a tuple of classes for isinstance)
     if isinstance(v, ast.UnaryOp) and isinstance(v.op, ast.USub):
         return _literal(v.operand)
     return False
@@ -1187,6 +1218,9 @@ def flatten(repo) -> Optional[Inliner]:
     for fi in list(repo.all_funcs()):
         if fi.parent is not None:
             continue
+        if _expand_properties(inl, fi):
+            ast.fix_missing_locations(fi.node)
+            changed_modules.add(fi.module.name)
         if _scalar_replace(inl, fi):
             ast.fix_missing_locations(fi.node)
             changed_modules.add(fi.module.name)
@@ -1227,6 +1261,98 @@ def flatten(repo) -> Optional[Inliner]:
     return inl
 
 
+def _is_property(fn_node) -> bool:
+    return any((isinstance(d, ast.Name) and d.id in ("property", "cached_property")) or (isinstance(d, ast.Attribute) and d.attr in ("cached_property",))
+               for d in getattr(fn_node, "decorator_list", []))
+
+
+def _expand_properties(inl, fi) -> bool:
+    """`g = C(...)` (the only binding of g, C a new class): a read of `g.p`, p a read-only property of C whose body is one
+    `return <expr>`, is that expression with self := g -- evaluated at every read, as the property is."""
+    fn = fi.node
+    changed = False
+    for _round in range(4):
+        again = False
+        names = {n.id for n in ast.walk(fn) if isinstance(n, ast.Name) and isinstance(n.ctx, ast.Store)}
+        for name in sorted(names):
+            cls = inl._new_class_of(ast.Name(id=name, ctx=ast.Load()), fi)
+            if cls is None:
+                continue
+            props = {}
+            for mname, m in cls.methods.items():
+                if not any(isinstance(d, ast.Name) and d.id == "property" for d in m.node.decorator_list) or len(m.node.decorator_list) != 1:
+                    continue
+                body = _strip_doc_local(m.node.body)
+                if len(body) == 1 and isinstance(body[0], ast.Return) and body[0].value is not None and len(m.node.args.args) == 1 \
+                        and not any(isinstance(x, (ast.Lambda, ast.ListComp, ast.SetComp, ast.DictComp, ast.GeneratorExp, ast.NamedExpr, ast.Await, ast.Yield))
+                                    for x in ast.walk(body[0].value)):
+                    # no setter / deleter of that name
+                    if not any(isinstance(d, ast.Attribute) and isinstance(d.value, ast.Name) and d.value.id == mname
+                               for o in cls.node.body if isinstance(o, FUNC) for d in o.decorator_list):
+                        props[mname] = (body[0].value, m.node.args.args[0].arg)
+            if not props:
+                continue
+
+            class P(ast.NodeTransformer):
+                hit = False
+
+                def visit_Attribute(self_, a):
+                    self_.generic_visit(a)
+                    if isinstance(a.ctx, ast.Load) and isinstance(a.value, ast.Name) and a.value.id == name and a.attr in props:
+                        (e, selfname) = props[a.attr]
+                        P.hit = True
+                        return ast.copy_location(_Subst({}, {selfname: ast.Name(id=name, ctx=ast.Load())}).visit(copy.deepcopy(e)), a)
+                    return a
+            P().visit(fn)
+            if P.hit:
+                again = changed = True
+                inl.log.append("%s: properties of %s read through `%s` written out" % (fi.qual, cls.qual, name))
+        if not again:
+            break
+    return changed
+
+
+def _dataclass_fields(cls):
+    """[(field, default expression or None)] of a plain @dataclass without __init__ / __post_init__, in declaration order; None when
+    the class is not one or a field's default cannot be written as an expression."""
+    decs = cls.node.decorator_list
+    if len(decs) != 1:
+        return None
+    d = decs[0]
+    if isinstance(d, ast.Call):
+        if any(k.arg in ("init", "slots", "frozen", "kw_only") for k in d.keywords):
+            return None
+        d = d.func
+    if not ((isinstance(d, ast.Name) and d.id == "dataclass") or (isinstance(d, ast.Attribute) and d.attr == "dataclass")):
+        return None
+    if "__init__" in cls.methods or "__post_init__" in cls.methods or "__setattr__" in cls.methods or cls.base_exprs:
+        return None
+    out = []
+    for st in cls.node.body:
+        if isinstance(st, ast.AnnAssign) and isinstance(st.target, ast.Name):
+            if "ClassVar" in ast.unparse(st.annotation) or "InitVar" in ast.unparse(st.annotation):
+                return None
+            v = st.value
+            if isinstance(v, ast.Call) and ((isinstance(v.func, ast.Name) and v.func.id == "field") or (isinstance(v.func, ast.Attribute) and v.func.attr == "field")):
+                kw = {k.arg: k.value for k in v.keywords}
+                if kw.get("init") is not None:
+                    return None
+                if "default" in kw:
+                    v = kw["default"]
+                elif "default_factory" in kw and isinstance(kw["default_factory"], ast.Name) and kw["default_factory"].id in ("list", "dict", "set"):
+                    v = ast.Call(func=ast.Name(id=kw["default_factory"].id, ctx=ast.Load()), args=[], keywords=[])
+                elif "default_factory" in kw:
+                    return None
+                else:
+                    v = None
+            elif v is not None and not _immutable_default(v):
+                return None
+            out.append((st.target.id, v))
+        elif isinstance(st, ast.Assign):
+            return None
+    return out
+
+
 def _scalar_replace(inl, fi) -> bool:
     """`g = C(a, b)` with C a class that is new w.r.t. the inventory, whose __init__ only stores its fields, and g used in
     this function only as `g.<field>` (read or written; every method call on it was written out already): the object never
@@ -1258,7 +1384,26 @@ def _scalar_replace(inl, fi) -> bool:
         init = cls.methods.get("__init__")
         inits = []
         ok = True
-        if init is not None:
+        dcf = _dataclass_fields(cls) if init is None else None
+        if dcf is not None:
+            if any(isinstance(a, ast.Starred) for a in call.args) or any(k.arg is None for k in call.keywords) or len(call.args) > len(dcf):
+                continue
+            binding = dict(zip([f for (f, _d) in dcf], call.args))
+            for k in call.keywords:
+                binding[k.arg] = k.value
+            if not set(binding) <= {f for (f, _d) in dcf} or not all(_is_pure_arg(a) for a in binding.values()):
+                continue
+            fields = {}
+            for (f, dflt) in dcf:
+                if f in binding:
+                    inits.append((f, copy.deepcopy(binding[f])))
+                elif dflt is not None:
+                    inits.append((f, copy.deepcopy(dflt)))
+                else:
+                    ok = False
+            if not ok:
+                continue
+        elif init is not None:
             prm = _params(init.node)
             if prm is None or any(isinstance(a, ast.Starred) for a in call.args) or any(k.arg is None for k in call.keywords):
                 continue
